@@ -231,6 +231,22 @@ func (c03) Exec(pj json.RawMessage, tape *simrt.Tape, keepLog bool) harness.RunO
 		if _, ok := probeByName[p.Prog]; !ok {
 			return harness.RunOut{Infra: "unknown probe program " + p.Prog}
 		}
+		if probeProgram != nil && probeProgram.Funcs[p.Prog] == nil {
+			if why := probeProgram.Refused[p.Prog]; why != "" {
+				// goose DID emit a definition, but it is not a well-formed program
+				out.Fingerprint = simrt.HashString("probe-ill-formed" + p.Prog)
+				if m, ok := probeByName[p.Prog]; ok && len(m.Features) > 0 {
+					facts = "/probe/" + m.Features[0]
+				}
+				if strings.Contains(why, "is not bound") {
+					// a free variable: the GooseLang machine is stuck when it gets there
+					fail("gl.stuck", "goose translated the program, but the emitted definition is not closed: "+why)
+				} else {
+					out.Probes["probe_outside_the_readers_grammar"]++
+				}
+				return out
+			}
+		}
 		if probeProgram == nil || probeProgram.Funcs[p.Prog] == nil {
 			out.Fingerprint = simrt.HashString("probe-rejected" + p.Prog)
 			out.Probes["probe_rejected_by_goose"]++
@@ -262,6 +278,11 @@ func (c03) Exec(pj json.RawMessage, tape *simrt.Tape, keepLog bool) harness.RunO
 		return out
 	}
 	if why, refused := program.Refused[p.Prog]; refused {
+		if strings.Contains(why, "is not bound") {
+			out.Fingerprint = simrt.HashString("ill-formed" + p.Prog)
+			fail("gl.stuck", "the emitted definition is not closed (a free variable is where the GooseLang machine gets stuck): "+why)
+			return out
+		}
 		return harness.RunOut{Infra: "reader refused " + p.Prog + ": " + why}
 	}
 	if _, ok := program.Funcs[p.Prog]; !ok {
